@@ -4,6 +4,7 @@ so the file stays right after a rebase). 'known' entries and comments are kept a
 import json, os, re, subprocess
 ROOT = os.path.dirname(os.path.dirname(os.path.abspath(__file__)))
 RULES = [
+    (r'raising something that is not an exception', 'C02'),
     (r'int\(\) in base 0', 'C07'),
     (r'special methods an instance inherits', 'C16'),
     (r"'break' inside a try or with", 'C12'),
